@@ -37,7 +37,7 @@ prop("C04", "other",
      "decode failure never re-enters the loop. Decides every structural clause; nothing numeric is involved "
      "(the 2^-31 id collision is outside any technique).",
      [("C04.accept", c04.accept), ("C04.check", c04.pdu_check), ("C04.skip", c04.skip_loop),
-      ("C04.single", c04.single_id), ("C04.report", c04.report_only_v3), ("C04.version", c04.version_check)])
+      ("C04.single", c04.single_id), ("C04.report", c04.report_only_v3), ("C04.version", c04.version_check), ("C04.adopt", v3.adopt)])
 
 # properties not claimed (with the reason); kept current by hand
 NOT_APPLICABLE = {}
@@ -51,7 +51,7 @@ prop("C07", "other",
      "(18 variants) against the documented classes and the create_exception! base classes; Python AST: every blocking "
      "socket call of the sync client maps BlockingIOError to TimeoutError. Every cell of the tables is decided; what is "
      "not decided is the identity of the Python objects pyo3 builds from the decoded values (see C02).",
-     [("C07.get", c07.get_table), ("C07.many", c07.many_table), ("C07.exc", c07.exc_table), ("C07.py", py.blocking_wrapped)])
+     [("C07.get", c07.get_table), ("C07.many", c07.many_table), ("C07.exc", c07.exc_table), ("C07.py", py.blocking_wrapped), ("C07.report", c04.pdu_check), ("C07.sib", crypto.sockets_sibling)])
 
 from .rules import c06  # noqa: E402
 
@@ -65,7 +65,7 @@ prop("C06", "other",
      "loop is not re-entered; Python: StopAsyncIteration -> StopIteration, None sentinel, empty list. Decides every "
      "clause but one: that cmp_arcs implements numeric OID order is only checked structurally (per sub-identifier).",
      [("C06.contain", c06.contain), ("C06.mono", c06.mono), ("C06.cont", c06.cont), ("C06.stop", c06.stop_tables),
-      ("C06.py", py.stop_mapping), ("C06.pybuf", py.bulk_buffer)])
+      ("C06.py", py.stop_mapping), ("C06.pybuf", py.bulk_buffer), ("C06.store", numrules.oid_store), ("C06.oidenc", codec.oid_text), ("C06.sib", crypto.sockets_sibling)])
 
 prop("C05", "other",
      "Client-side premises of the walk argument (given an RFC 3416 agent): containment and continuation rules of C06, "
@@ -75,7 +75,8 @@ prop("C05", "other",
      "on v1. Necessary conditions only: that the walk returns exactly the MIB entries below the base, each once, is a "
      "relation between agent and client histories and is NOT decided statically.",
      [("C05.contain", c06.contain), ("C05.mono", c06.mono), ("C05.cont", c06.cont), ("C05.step", c06.stop_tables),
-      ("C05.pybuf", py.bulk_buffer), ("C05.pystop", py.stop_mapping), ("C05.async", py.async_pairs), ("C05.fetch", py.fetch)])
+      ("C05.pybuf", py.bulk_buffer), ("C05.pystop", py.stop_mapping), ("C05.async", py.async_pairs), ("C05.fetch", py.fetch), ("C05.store", numrules.oid_store), ("C05.oidenc", codec.oid_text),
+      ("C05.sib", crypto.sockets_sibling)])
 
 from .rules import v3, c18  # noqa: E402
 
@@ -104,7 +105,7 @@ prop("C18", "other",
      "call of the sync client maps that to TimeoutError; the async _recv wraps the whole retry loop in "
      "wait_for(self._timeout) and remaps the asyncio timeout; sync passes int(timeout*NS), async 0. The skip loop of "
      "_recv_inner tests no deadline (C18.deadline): recorded as a known finding.",
-     [("C18.arm", c18.arm), ("C18.deadline", c18.deadline), ("C18.map", py.blocking_wrapped), ("C18.py", py.timeouts), ("C18.recv-once", c18.recv_loops)])
+     [("C18.arm", c18.arm), ("C18.deadline", c18.deadline), ("C18.map", py.blocking_wrapped), ("C18.py", py.timeouts), ("C18.recv-once", c18.recv_loops), ("C18.skip", c04.skip_loop)])
 
 from .rules import numrules  # noqa: E402
 
@@ -158,7 +159,7 @@ prop("C16", "proof",
      "&tail[hdr.length..] of the same header parse; decode(tail, &hdr) pairs; all seven try_from (3 messages, USM, 3 PDUs) "
      "return Ok only across the empty-remainder edge of their enclosing SEQUENCE.",
      [("C16.extent", codec.extent), ("C16.hdr", codec.hdr_contract), ("C16.rest", codec.rest), ("C16.pair", codec.pair),
-      ("C16.trailing", codec.trailing)])
+      ("C16.trailing", codec.trailing), ("C16.lists", codec.list_loops)])
 
 prop("C02", "other",
      "Necessary conditions only (numerical equality of decoded values with their X.690 denotation is NOT decided): the "
@@ -183,7 +184,7 @@ prop("C15", "other",
      "shift site in SnmpInt::push_ber/decode, the OID conversions and push_tag_len (engine `num`); the length-form table of "
      "push_tag_len (short / 0x81 / 0x82 with the octets in order and ensure_size covering them); the fixed encodings (ZERO_BER, "
      "NULL_BER, EMPTY_BER, version constants) are minimal TLVs; PDU tag tables of encoder and decoder agree with RFC 3416.",
-     [("C15.nowrap", numrules.c15_nowrap), ("C15.len", codec.length_forms), ("C15.hdr", codec.hdr_reject), ("C15.pdu", codec.pdu_tags), ("C15.oid", codec.oid_text), ("C15.nested", crypto.nested_lengths), ("C15.mirror", crypto.layout_mirror)])
+     [("C15.nowrap", numrules.c15_nowrap), ("C15.len", codec.length_forms), ("C15.hdr", codec.hdr_reject), ("C15.pdu", codec.pdu_tags), ("C15.oid", codec.oid_text), ("C15.nested", crypto.nested_lengths), ("C15.mirror", crypto.layout_mirror), ("C15.dec", codec.width), ("C15.handlen", crypto.hand_lengths)])
 
 from .rules import crypto  # noqa: E402
 
@@ -237,7 +238,7 @@ prop("C03", "other",
      "undischarged panic site on the send path.",
      [("C03.fresh", crypto.fresh_buffers), ("C03.priv-fresh", crypto.priv_fresh), ("C03.op", crypto.op_tables), ("C03.pdu", codec.pdu_tags),
       ("C03.cred", v3.cred), ("C03.priv", v3.priv_choice), ("C03.reqid", c04.single_id), ("C03.len", codec.length_forms), ("C03.sib", crypto.sockets_sibling),
-      ("C03.keys", v3.keys), ("C03.fetch", py.fetch), ("C03.version", py_version_default), ("C03.nested", crypto.nested_lengths), ("C03.mirror", crypto.layout_mirror), ("C03.nopanic", numrules.c03_nopanic)])
+      ("C03.keys", v3.keys), ("C03.fetch", py.fetch), ("C03.version", py_version_default), ("C03.nested", crypto.nested_lengths), ("C03.mirror", crypto.layout_mirror), ("C03.nopanic", numrules.c03_nopanic), ("C03.adopt", v3.adopt), ("C03.msgflags", crypto.msg_flags)])
 
 prop("C17", "proof",
      "Abstract interpretation (`num`): the type invariant pos <= MAX_SIZE of Buffer is assumed at every read of pos and proved at "
@@ -248,7 +249,7 @@ prop("C17", "proof",
      "only from the two decrypts (which fill the space before reading), as_slice(n) only from recv_socket with n = recv's result; "
      "no Result of a push is dropped; send only across push_pdu's Ok edge; OutOfBuffer -> SnmpEncodeError; length-form table.",
      [("C17.sites", numrules.c17_sites), ("C17.owner", crypto.buffer_owner), ("C17.err", crypto.buffer_err), ("C17.send", crypto.fresh_buffers),
-      ("C17.len", codec.length_forms), ("C17.exc", c07.exc_table), ("C17.priv-fresh", crypto.priv_fresh), ("C17.nested", crypto.nested_lengths)])
+      ("C17.len", codec.length_forms), ("C17.exc", c07.exc_table), ("C17.priv-fresh", crypto.priv_fresh), ("C17.nested", crypto.nested_lengths), ("C17.handlen", crypto.hand_lengths)])
 
 prop("C09", "other",
      "HMAC byte equality is NOT decided. Decided: in v3 push_pdu sign runs on every Ok path of an authenticated session with no "
@@ -259,7 +260,7 @@ prop("C09", "other",
      "data[offset..offset+SS] = d2[0..SS]; the two key installers refresh the same fields and sign reads only refreshed state; "
      "engine id / keys consistency rules of C13.",
      [("C09.order", crypto.sign_order), ("C09.const", crypto.hmac_consts), ("C09.shape", crypto.hmac_shape), ("C09.flag", v3.cred),
-      ("C09.keys", v3.keys), ("C09.adopt", v3.adopt), ("C09.accept", c04.accept)])
+      ("C09.keys", v3.keys), ("C09.adopt", v3.adopt), ("C09.accept", c04.accept), ("C09.msgflags", crypto.msg_flags)])
 
 prop("C11", "other",
      "Ciphertext correctness is NOT decided. Decided: both ciphers reset their private buffer before every use (history "
@@ -269,7 +270,7 @@ prop("C11", "other",
      "place equals the range returned (b[..padded_len]) and padded_len is proved in bounds (num); push_pdu passes the session's "
      "scoped PDU, boots and time in this order; the skipped buffer is parsed only after a successful decryption; key localisation "
      "chain (auth digest, session engine id, own key-type bits).",
-     [("C11.fresh", crypto.priv_fresh), ("C11.layout", crypto.priv_layout), ("C11.args", v3.cred), ("C11.keys", v3.keys), ("C11.choice", v3.priv_choice)])
+     [("C11.fresh", crypto.priv_fresh), ("C11.layout", crypto.priv_layout), ("C11.args", v3.cred), ("C11.keys", v3.keys), ("C11.choice", v3.priv_choice), ("C11.msgflags", crypto.msg_flags), ("C11.pad", numrules.des_padding)])
 
 prop("C12", "other",
      "Digest equality with RFC 3414 A.2 is NOT decided. Decided: no undischarged panic site from SnmpV3ClientSocket::new, "
@@ -288,4 +289,4 @@ prop("C14", "other",
      "encrypt lies between copying the salt into the message and advancing the counter; the transmitted parameters are 8 octets "
      "([u8; 8] / [u8; 16][8..]); flag_priv, the Encrypted/Plaintext choice and the encrypt call are governed by the same "
      "has_priv() and Encrypted carries encrypt()'s output. NOT decided: absence of plaintext octet runs in the ciphertext.",
-     [("C14.counter", crypto.salt_counter), ("C14.flag", v3.priv_choice), ("C14.cred", v3.cred), ("C14.layout", crypto.priv_layout)])
+     [("C14.counter", crypto.salt_counter), ("C14.flag", v3.priv_choice), ("C14.cred", v3.cred), ("C14.layout", crypto.priv_layout), ("C14.msgflags", crypto.msg_flags), ("C14.py", py.refresh_flow), ("C14.user", crypto.key_ffi)])
